@@ -14,6 +14,8 @@ pub struct IrFn {
     pub variadic: bool,
     pub ret: Ty,
     pub params: Vec<(Option<String>, Ty)>,
+    /// type ids of the parameters (for the `va_list` walk of `wrap_as_variadic_fn`)
+    pub param_ids: Vec<u64>,
 }
 
 pub struct Ir {
@@ -53,6 +55,14 @@ fn build(types: &BTreeMap<u64, Record>, id: u64, depth: usize) -> Ty {
         "Enum" => cbase(c, Base::Enum(name.unwrap_or_else(|| "_bindgen_anon".into()))),
         _ => Ty::Other,
     }
+}
+
+fn sig_ids(r: &Record) -> Vec<u64> {
+    let a = r.get("args");
+    if a == "-" || a.is_empty() {
+        return vec![];
+    }
+    a.split(',').map(|part| part.split_once(':').map_or(part, |x| x.0).parse().unwrap_or(u64::MAX)).collect()
 }
 
 fn sig(types: &BTreeMap<u64, Record>, r: &Record, depth: usize) -> (Ty, Vec<(Option<String>, Ty)>, bool) {
@@ -101,6 +111,7 @@ pub fn read(dump: &[Record]) -> Ir {
             Some(t) => sig(&types, t, 0),
             None => (Ty::Other, vec![], false),
         };
+        let param_ids = srec.map(sig_ids).unwrap_or_default();
         fns.push(IrFn {
             id: r.num("id").unwrap_or(0),
             name: unesc(r.get("name")),
@@ -111,6 +122,7 @@ pub fn read(dump: &[Record]) -> Ir {
             variadic,
             ret,
             params,
+            param_ids,
         });
     }
     Ir { types, fns }
@@ -119,5 +131,21 @@ pub fn read(dump: &[Record]) -> Ir {
 impl Ir {
     pub fn n_types(&self) -> usize {
         self.types.len()
+    }
+    /// What the hand-rolled visitor of `utils::wrap_as_variadic_fn` sees of a type, outermost first:
+    /// (`ty.name()` as the dump escapes it, kind is Alias or ResolvedTypeRef); ends with the first type
+    /// of another kind.
+    pub fn va_chain(&self, mut id: u64) -> Vec<(Option<String>, bool)> {
+        let mut out = vec![];
+        for _ in 0..64 {
+            let Some(r) = self.types.get(&id) else { break };
+            let cont = matches!(r.get("k"), "Alias" | "ResolvedTypeRef");
+            out.push((r.kv.get("name").cloned(), cont));
+            if !cont {
+                break;
+            }
+            id = r.num("inner").unwrap_or(u64::MAX);
+        }
+        out
     }
 }
